@@ -69,6 +69,8 @@ struct C<'a> {
     seq: u64,
     lossy: bool,
     faults_on: bool,
+    /// the side's raw sockets have a small receive buffer (drops for lack of room are legitimate there)
+    small_rx: [bool; 2],
 }
 
 impl<'a> C<'a> {
@@ -105,6 +107,7 @@ pub fn run(tape: &mut Tape, props: Props, thorough: bool, trace_on: bool) -> Out
         }
     }
     let mut sides = vec![];
+    let mut small_rx = [false; 2];
     for i in 0..2u8 {
         let mut cfg = NodeCfg::basic(if i == 0 { 'A' } else { 'B' }, medium, ip_mtu + l2, i + 1, v6);
         cfg.csum[0] = c4[i as usize];
@@ -116,11 +119,15 @@ pub fn run(tape: &mut Tape, props: Props, thorough: bool, trace_on: bool) -> Out
             vw
         };
         let mut socks = vec![];
+        // receive payload buffer: roomy, or smaller than some of the packets that will arrive - such a packet does
+        // not fit even an empty buffer and is dropped whole (never handed over shortened)
+        let rx_bytes = *tape.pick(&[8192usize, 8192, 8192, 96, 300, 1000]);
+        small_rx[i as usize] = rx_bytes < 8192;
         for p in PROTOS {
             let s = raw::Socket::new(
                 Some(if v6 { IpVersion::Ipv6 } else { IpVersion::Ipv4 }),
                 Some(IpProtocol::from(p)),
-                raw::PacketBuffer::new(vec![raw::PacketMetadata::EMPTY; 8], vec![0u8; 8192]),
+                raw::PacketBuffer::new(vec![raw::PacketMetadata::EMPTY; 8], vec![0u8; rx_bytes]),
                 raw::PacketBuffer::new(vec![raw::PacketMetadata::EMPTY; 4], vec![0u8; 4096]),
             );
             socks.push((node.sockets.add(s), p, VecDeque::new()));
@@ -128,10 +135,10 @@ pub fn run(tape: &mut Tape, props: Props, thorough: bool, trace_on: bool) -> Out
         sides.push(Side { node, view, addr: cfg.addrs[0].0, socks, wire: vec![], frag: None });
     }
     let lossy = tape.draw(3) == 2;
-    let desc = format!("raw-pair medium={:?} v6={} ip_mtu={} lossy={} ipv4-checksum-caps={:?}", medium, v6, ip_mtu, lossy, c4);
+    let desc = format!("raw-pair medium={:?} v6={} ip_mtu={} lossy={} ipv4-checksum-caps={:?} small-rx-buffers={:?}", medium, v6, ip_mtu, lossy, c4, small_rx);
     let b = sides.pop().unwrap();
     let a = sides.pop().unwrap();
-    let mut c = C { tape, props, s: [a, b], medium, v6, ip_mtu, now: 0, stats: Stats::default(), hash: LogHash::new(), trace: vec![], trace_on, events: 0, link: vec![], seq: 0, lossy, faults_on: lossy };
+    let mut c = C { tape, props, s: [a, b], medium, v6, ip_mtu, now: 0, stats: Stats::default(), hash: LogHash::new(), trace: vec![], trace_on, events: 0, link: vec![], seq: 0, lossy, faults_on: lossy, small_rx };
     let r = body(&mut c, thorough);
     let nontrivial = c.stats.get("raw.app-deliveries") >= 2 && c.stats.get("raw.sends-accepted") >= 3;
     c.stats.add("sim.seconds", (c.now / 1_000_000) as u64);
@@ -458,7 +465,7 @@ fn body(c: &mut C, thorough: bool) -> Result<(), Violation> {
                 return Err(v("C09.raw/accepted-packet-never-transmitted", "tx", format!("node {}: a raw packet (proto {}, {} payload octets to {}) accepted by send at t={} us was never transmitted although the peer is reachable and the link now loss-free", name, proto, x.payload.len(), x.dst, x.t)));
             }
         }
-        if !c.lossy {
+        if !c.lossy && !c.small_rx[1 - i] {
             if let Some(w) = c.s[i].wire.iter().find(|w| w.app_deliveries != 1) {
                 return Err(v("C09.raw/not-delivered-exactly-once", "rx", format!("loss-free link: the raw packet node {} transmitted at t={} us ({} > {} proto {} with {} payload octets, {} frame(s)) was delivered {} times to the peer's raw socket", name, w.t, w.src, w.dst, w.proto, w.payload.len(), w.frame_deliveries.len(), w.app_deliveries)));
             }
